@@ -339,6 +339,97 @@ fn find_variant_fields(out: &OutFile, lang: Lang) -> Option<Vec<String>> {
     out.structs().find(|s| s.name == "OuterSvInner").map(|s| s.fields.iter().map(|f| f.wire.clone()).collect())
 }
 
+
+// ---------- family 3: the same Rust identifier twice ----------
+
+const H_KINDS: [&str; 5] = ["struct", "alg-enum", "alias", "newtype", "const"];
+const H_PLACES: [&str; 4] = ["two-modules-one-file", "two-files-one-crate", "two-crates-single-file-mode", "nested-vs-top-level"];
+const H_RENAMES: [&str; 3] = ["second-renamed", "first-renamed", "both-renamed"];
+
+/// Two annotated items of one kind with the same Rust identifier in different modules / files, told apart on the
+/// wire by serde(rename) (versioned types). Both are annotated, so both must be generated, each with its own members.
+pub fn check_homonyms(kind: &'static str, place: &'static str, renames: &'static str, lang: Lang, choices: &[u32], acc: &mut Acc) {
+    if kind == "const" && !const_supported(lang) {
+        acc.out_of_scope += 1;
+        return;
+    }
+    let (n1, n2) = match renames {
+        "second-renamed" => (None, Some("ReqV2")),
+        "first-renamed" => (Some("ReqV1"), None),
+        _ => (Some("ReqV1"), Some("ReqV2")),
+    };
+    let item = |which: usize, rename: Option<&str>| -> String {
+        let r = rename.map(|r| format!("#[serde(rename = \"{r}\")]\n")).unwrap_or_default();
+        let m = format!("from_v{which}");
+        match kind {
+            "struct" => format!("#[typeshare]\n{r}pub struct Req {{ pub {m}: u32 }}\n"),
+            "alg-enum" => format!("#[typeshare]\n{r}#[serde(tag = \"type\", content = \"content\")]\npub enum Req {{ Plain, Holds{which}(u32) }}\n"),
+            "alias" => format!("#[typeshare]\n{r}pub type Req = {};\n", if which == 1 { "Vec<u32>" } else { "Option<String>" }),
+            "newtype" => format!("#[typeshare]\n{r}pub struct Req(pub {});\n", if which == 1 { "Vec<u32>" } else { "Option<String>" }),
+            _ => format!("#[typeshare]\npub const REQ: u32 = {};\n", 40 + which),
+        }
+    };
+    // consts cannot be renamed: the two constants simply coexist (both must be printed)
+    let (a, b) = (item(1, if kind == "const" { None } else { n1 }), item(2, if kind == "const" { None } else { n2 }));
+    let files: Vec<crate::pipeline::SrcFile> = match place {
+        "two-modules-one-file" => vec![crate::pipeline::SrcFile::single(format!("pub mod v1 {{\n{a}}}\npub mod v2 {{\n{b}}}\n"))],
+        "nested-vs-top-level" => vec![crate::pipeline::SrcFile::single(format!("{a}\npub mod v2 {{\n    pub mod inner {{\n{b}    }}\n}}\n"))],
+        "two-files-one-crate" => vec![
+            crate::pipeline::SrcFile { crate_name: String::new(), path: "src/v1.rs".into(), source: a.clone() },
+            crate::pipeline::SrcFile { crate_name: String::new(), path: "src/v2.rs".into(), source: b.clone() },
+        ],
+        _ => vec![
+            crate::pipeline::SrcFile { crate_name: String::new(), path: "one/src/lib.rs".into(), source: b.clone() },
+            crate::pipeline::SrcFile { crate_name: String::new(), path: "two/src/lib.rs".into(), source: a.clone() },
+        ],
+    };
+    acc.runs += 1;
+    acc.judgements += 1;
+    let key = format!("{kind}|{place}|{renames}|{}", lang.name());
+    acc.inputs.insert(report::fnv64(&format!("{kind}|{place}|{renames}")));
+    acc.nontrivial.insert(report::fnv64(&key));
+    let o = crate::pipeline::run(&files, lang, &Cfg::plain());
+    acc.outcomes.insert(report::fnv64(&format!("{}|{}", lang.name(), o.kind())));
+    let srcs: Vec<serde_json::Value> = files.iter().map(|f| json!({"path": f.path, "source": f.source})).collect();
+    let shape = format!("kind={kind}|place={place}|{renames}");
+    let text = match &o {
+        Outcome::Ok(m) => m.values().next().cloned().unwrap_or_default(),
+        other => {
+            acc.vios.add(Violation { sig: format!("C03|{}|homonyms|no-output:{}|{shape}", lang.name(), other.kind()), detail: json!({"choices": choices, "lang": lang.name(), "files": srcs, "failure": format!("{other:?}").chars().take(400).collect::<String>()}) });
+            return;
+        }
+    };
+    let out = match crate::extract::extract(lang, &text) {
+        Ok(x) => x,
+        Err(_) => {
+            acc.out_of_scope += 1; // C10's business
+            return;
+        }
+    };
+    let base = json!({"choices": choices, "lang": lang.name(), "files": srcs, "output": text, "defined": out.defs.iter().map(|d| format!("{} {}", d.kind(), d.name())).collect::<Vec<_>>()});
+    let main_defs: Vec<&Def> = out.defs.iter().filter(|d| !is_helper(d.name())).collect();
+    if main_defs.len() != 2 {
+        let mut d = base.clone();
+        d["expected_definitions"] = json!(2);
+        acc.vios.add(Violation { sig: format!("C03|{}|homonyms|definition-count:{}|{shape}", lang.name(), main_defs.len()), detail: d });
+        return;
+    }
+    // each version's distinguishing member must be there
+    let marks: [&str; 2] = match kind {
+        "struct" => ["from_v1", "from_v2"],
+        "alg-enum" => ["Holds1", "Holds2"],
+        "const" => ["41", "42"],
+        _ => ["", ""],
+    };
+    for (i, mark) in marks.iter().enumerate() {
+        if !mark.is_empty() && !crate::extract::code_tokens(lang, &text).map(|(code, _)| code.iter().any(|t| t.to_lowercase().contains(&mark.to_lowercase().replace('_', "")) || t.contains(mark))).unwrap_or(false) {
+            let mut d = base.clone();
+            d["missing_member_of_version"] = json!(i + 1);
+            acc.vios.add(Violation { sig: format!("C03|{}|homonyms|member-of-version-missing|{shape}", lang.name()), detail: d });
+        }
+    }
+}
+
 fn controls(rep: &mut Report) {
     let canned = "export interface Outer {\n\tm0: number;\n\tm2: boolean;\n}\n\nexport interface Extra {\n}\n";
     match crate::extract::extract(Lang::TypeScript, canned) {
@@ -388,6 +479,25 @@ pub fn run(args: &[String]) -> i32 {
             u64::MAX,
         );
         merge(&mut rep, "members", accs, &stats, json!({"containers": CONTAINERS, "skip_patterns": 27, "skip_spellings": ["serde(skip)", "typeshare(skip)"], "attr_styles": 4, "member_renamed": [false, true], "languages": 6}));
+    }
+    {
+        let (accs, stats) = explore(
+            |ch| {
+                ch.choose("kind", H_KINDS.len());
+            },
+            |ch, acc: &mut Acc| {
+                let kind = *ch.pick("kind", &H_KINDS);
+                let place = *ch.pick("place", &H_PLACES);
+                let renames = *ch.pick("renames", &H_RENAMES);
+                let lang = *ch.pick("lang", &ALL_LANGS);
+                check_homonyms(kind, place, renames, lang, &ch.choices(), acc);
+            },
+            Mode::Product,
+            1,
+            report::threads(),
+            u64::MAX,
+        );
+        merge(&mut rep, "same_identifier_twice", accs, &stats, json!({"kinds": H_KINDS, "placements": H_PLACES, "serde_rename_on": H_RENAMES, "languages": 6}));
     }
     require_nonvacuous(&mut rep);
     rep.cov("rule", json!("items family: every sequence of 1..N items over 7 item kinds × annotated/un-annotated × module depth 0..2 × language: the definitions recovered from the output (minus Inner helpers) must equal the annotated items; members family: every skip pattern over three members (27) × skip spelling × attribute style × rename × 4 container kinds × language: members must equal the non-skipped source members in source order. non-trivial = something is un-annotated / nested in a module / skipped."));
